@@ -73,6 +73,11 @@ def degree(v):
             except ValueError:
                 return POLY if 'inf' in c[1] else 0
         return NA
+    if k == 'deref':
+        return degree(x[1])
+    if k == 'field' and strip_upd(x[1])[0] == 'param' and strip_upd(x[1])[1] == 1 and '{closure' in (CUR_FN[0] or ''):
+        # a value captured by a closure: the degree of what was captured where the closure was made
+        return PARAM_DEG.get((CUR_FN[0], ('env', str(x[2]))), NA)
     if k == 'field' and x[2] in ('x', 'y'):
         inner = strip_upd(x[1])
         if inner[0] == 'agg' and len(inner[4]) == 2:
@@ -276,6 +281,21 @@ def check_degrees(ctx, rep, rule='R-degree'):
             CUR_FN[0] = name
             for p in ps:
                 for e in p.events:
+                    if e['k'] == 'call':
+                        # closures built on this path: what each captures (by value, or by reference to a local of this body)
+                        for a in e['args']:
+                            for y in sym.walk(a):
+                                if y[0] == 'agg' and y[1] == 'closure' and y[2] in f.bodies:
+                                    for i_, cap in enumerate(y[4]):
+                                        cv = strip_upd(cap)
+                                        if cv[0] == 'ref' and cv[1][0][0] == 'loc' and cv[1] in p.final.mem:
+                                            cv = p.final.mem[cv[1]]
+                                        try:
+                                            d = degree(cv)
+                                        except DegreeError:
+                                            continue
+                                        if d not in (NA, POLY):
+                                            seen_deg.setdefault((y[2], ('env', str(i_))), set()).add(d)
                     if e['k'] != 'call' or e['callee'] not in f.bodies:
                         continue
                     cb = f.bodies[e['callee']]
